@@ -84,6 +84,7 @@ def run(ctx):
     ctx.guard("R01.6", "overflow", lambda: r14_4b(ctx, "html", "R01.6"))
     ctx.guard("R01.6", "semicolon", lambda: semicolon_rule(ctx, "R01.6"))
     ctx.guard("R01.6", "in-attribute", lambda: in_attribute_flag_rule(ctx, "R01.6"))
+    ctx.guard("R01.6", "end-runs/html", lambda: tr.end_runs_before_eof(ctx, "R01.6", "html"))
     ctx.guard("R01.6", "charref-start-states", lambda: charref_start_states_rule(ctx, "R01.6"))
     ctx.rule("R01.8", "= R14.12 for the HTML tokenizer: the character reference states as transcribed from the standard")
     from . import charrefspec as _crs
